@@ -45,7 +45,7 @@ def moment_test(ctx):
             m = Fraction(1 + (-1) ** k, k + 1)
             worst = max(worst, abs(float(s - m)))
     ctx.notes["oracle_test_leggauss_moment_defect_max"] = worst
-    if worst > 1e-13:
+    if not worst <= 1e-13:
         ctx.fail("oracle", "quad:numpy-table-moments", {"worst": worst}, worst, "<= 1e-13")
 
 
@@ -173,18 +173,18 @@ def oracle(ctx):
                 continue
             finally:
                 torch.set_default_dtype(old)
-            if abs(float(v) - exact(a, b)) > tol:
+            if not abs(float(v) - exact(a, b)) <= tol:
                 ctx.fail("oracle", "quad:polynomial-exactness", dict(info, form=form), float(v), exact(a, b))
-            if abs(float(v) + float(vs)) > tol:
+            if not abs(float(v) + float(vs)) <= tol:
                 ctx.fail("oracle", "quad:swap", dict(info, form=form), [float(v), float(vs)], "opposite signs")
-            if abs(float(vab) - float(v)) > tol:
+            if not abs(float(vab) - float(v)) <= tol:
                 ctx.fail("oracle", "quad:additive", info, [float(vab), float(v)], "equal")
         g = lambda x: torch.cos(x) * x
         al, be = rng.randrange(-4, 5) / 2, rng.randrange(-4, 5) / 2
         lhs = quad(lambda x: al * poly(x) + be * g(x), torch.tensor(a, dtype=DT), torch.tensor(b, dtype=DT), n=n)
         rhs = al * quad(poly, torch.tensor(a, dtype=DT), torch.tensor(b, dtype=DT), n=n) + \
             be * quad(g, torch.tensor(a, dtype=DT), torch.tensor(b, dtype=DT), n=n)
-        if abs(float(lhs - rhs)) > tol + 1e-12 * abs(float(rhs)):
+        if not abs(float(lhs - rhs)) <= tol + 1e-12 * abs(float(rhs)):
             ctx.fail("oracle", "quad:linearity", info, float(lhs), float(rhs))
     # infinite limits and tuple outputs, float32
     zero, inf = torch.tensor(0.0, dtype=DT), torch.tensor(math.inf, dtype=DT)
@@ -199,15 +199,49 @@ def oracle(ctx):
             ctx.fail("oracle", "quad:inf:" + name, {}, repr(e)[:200], ref)
             continue
         ctx.count(("inf", name))
-        if abs(v - ref) > tol:
+        if not abs(v - ref) <= tol:
             ctx.fail("oracle", "quad:inf:" + name, {}, v, ref)
     t = quad(lambda x: (x * x, torch.stack([x, 2 * x]).reshape(2, 1)), torch.tensor(0.0, dtype=DT), torch.tensor(2.0, dtype=DT), n=5)
     if not (isinstance(t, (tuple, list)) and len(t) == 2 and t[0].shape == () and abs(float(t[0]) - 8 / 3) < 1e-13
             and t[1].shape == (2, 1) and torch.allclose(t[1].reshape(-1), torch.tensor([2.0, 4.0], dtype=DT))):
         ctx.fail("oracle", "quad:tuple", {"integrand": "(x^2, [[x],[2x]]) on [0, 2]"},
                  [list(x.shape) for x in t] if isinstance(t, (tuple, list)) else str(type(t)), "shapes (), (2,1); values 8/3, [[2],[4]]")
+    # more half-infinite forms (every one of -inf / +inf at either end, either order; seeded defect C12/5)
+    minf = torch.tensor(-math.inf, dtype=DT)
+    one = torch.tensor(1.0, dtype=DT)
+    for name, f, ref, tol in [("exp-left", lambda: quad(lambda x: torch.exp(x), minf, zero, n=200), 1.0, 1e-8),
+                              ("exp-left-swapped", lambda: quad(lambda x: torch.exp(x), one, minf, n=200), -math.e, 1e-7),
+                              # python-number limits: the integrand runs in the default dtype (float32), hence the tolerance
+                              ("exp-left-number", lambda: quad(lambda x: torch.exp(x), -math.inf, 0.0, n=200), 1.0, 1e-5)]:
+        try:
+            v = float(f())
+        except Exception as e:
+            ctx.fail("oracle", "quad:inf:" + name, {}, repr(e)[:200], ref)
+            continue
+        ctx.count(("inf", name))
+        if not abs(v - ref) <= tol:
+            ctx.fail("oracle", "quad:inf:" + name, {}, v, ref)
+    # an integrand that hands back one of its own arguments (no fresh tensor): the value is right and the argument is left
+    # untouched (seeded defect C12/4: the first term of the sum was accumulated in place)
+    cpar = torch.tensor([2.0, -3.0], dtype=DT)
+    ckeep = cpar.clone()
+    vconst = quad(lambda x, c: c, torch.tensor(0.0, dtype=DT), torch.tensor(1.0, dtype=DT), params=(cpar,), n=3)
+    ctx.count(("aliasing-integrand",))
+    if not torch.allclose(vconst, ckeep, rtol=0, atol=1e-14) or not torch.equal(cpar, ckeep):
+        ctx.fail("oracle", "quad:integrand-returns-its-argument", {"integrand": "f(x, c) = c on [0, 1], n = 3"},
+                 {"value": vconst.tolist(), "c_after": cpar.tolist()}, {"value": ckeep.tolist(), "c_after": ckeep.tolist()})
+    # limits given as tensors of another dtype are converted to the integrand's dtype (seeded defect C12/6)
+    for ldt in (torch.float32, torch.int64):
+        try:
+            vl = quad(lambda x, c: c * x ** 3, torch.tensor(1, dtype=ldt), torch.tensor(3, dtype=ldt), params=(torch.tensor(0.7, dtype=DT),), n=4)
+        except Exception as e:
+            ctx.fail("oracle", "quad:limit-dtype:%s" % str(ldt), {"limits": str(ldt), "integrand": "float64"}, repr(e)[:200], 0.7 * 20.0)
+            continue
+        ctx.count(("limit-dtype", str(ldt)))
+        if vl.dtype != DT or not abs(float(vl) - 14.0) <= 1e-13:
+            ctx.fail("oracle", "quad:limit-dtype:%s" % str(ldt), {"limits": str(ldt), "integrand": "float64"}, [str(vl.dtype), float(vl)], 14.0)
     v32 = quad(lambda x: x * x, torch.tensor(0.0), torch.tensor(3.0), n=4)
-    if v32.dtype != torch.float32 or abs(float(v32) - 9.0) > 1e-5:
+    if v32.dtype != torch.float32 or not abs(float(v32) - 9.0) <= 1e-5:
         ctx.fail("oracle", "quad:float32", {}, v32, 9.0)
 
 
